@@ -315,6 +315,8 @@ def run(ctx):
             ctx.note("hash_order.json row no longer matches a site: " + k)
     r2(ctx)
     r3(ctx)
+    from .c12 import used_vars_unmodified
+    used_vars_unmodified(ctx, "R2")
     ctx.rule("R4", "transform entries that the dependency sort leaves unordered (hash order) cannot observe each other: what rewriters inherit is fixed before the first entry is applied")
     r4(ctx)
 
